@@ -355,7 +355,7 @@ JWT_BASES = {
                                                 "auth_time": NOW, "acr": "0", "amr": ["pwd"], "at_hash": "x", "c_hash": "y"}),
     "at7523": ({"alg": "HS256"}, {"iss": "https://as.example", "sub": "alice", "exp": NOW + 3000, "iat": NOW, "client_id": "c1", "grant_type": "password", "scope": "a"}),
 }
-RETYPED_CORE = [None, 5, True, 1.5, "s", "", [], ["a", 1], [{"a": 1}], [["x"]], {}, {"a": 1}]          # one value of every JSON shape: always used
+RETYPED_CORE = [None, 5, True, 1.5, "s", "", [], ["a", 1], [{"a": 1}], [["x"]], {}, {"a": 1}, float("inf"), float("-inf"), float("nan"), -(10 ** 400)]          # one value of every JSON shape: always used
 RETYPED = RETYPED_CORE + [["\"\u00e9\\\r\n"], -1, 10 ** 30, "\"\\", "\u00e9", [1], "9" * 400, {"a": {"b": []}}, [None]]
 
 
